@@ -148,6 +148,14 @@ def handle (case : String) : String :=
     match len.toNat? with
     | some len => modelLoopAttr len (sized == "1")
     | none => "bad-case"
+  | ["k", "localid", _kind, k] =>
+    match k.toNat? with
+    | some k =>
+      -- k distinct names in order, then the last three once more in reverse
+      let names := (List.range k).map toString
+      let ids := assignLocalIds Gen.maxLocals [] (names ++ (names.reverse.take 3))
+      "ok:" ++ ",".intercalate (ids.map toString)
+    | none => "bad-case"
   | ["k", "loopesc", len, sized, brk] =>
     match len.toNat? with
     | some len => modelLoopEsc len (sized == "1") (brk == "1")
